@@ -8,6 +8,7 @@
    of the ILP; these speak about the loop the code runs.  Only statements here; proofs are in proofs/CnEnumProofs.v. *)
 From Coq Require Import Permutation.
 From Aldy Require Import Base Consts Lp Enum CnModel CnSpec CnProofs CnCompleteProofs EnumProofs CnEnumProofs.
+From Aldy Require CnRefSolverProofs Consts_here C03.
 Open Scope Z_scope.
 
 (* every yield is a feasible point - so every structural clause of C03 (two complete configurations, a second copy only with a
@@ -80,3 +81,19 @@ Theorem C03_reported_complete : forall (c : consts) (i : cn_inst), hyps_ok i = t
 Proof. exact cn_reported_complete. Qed.
 Goal True. idtac "ASSUME C03_reported_complete". Abort.
 Print Assumptions C03_reported_complete.
+
+(* ---- the premises can be met: a reference solver (search over the sub-lists of the slots, each completed to its canonical
+        point; proofs/CnRefSolverProofs.v) satisfies the contract on the copy-number ILP and on every model obtained from it by
+        exclusion cuts, and always answers.  [closedb]: every variable a row or the objective mentions is declared, no integer
+        variable (decidable; holds for the example instance of props/C03.v) ---- *)
+Theorem C03_reported_premises_satisfiable : forall (c : consts) (i : cn_inst), hyps_ok i = true ->
+  CnRefSolverProofs.closedb (gen c i) = true ->
+  exists solve : Z -> lp -> sres,
+    (forall cuts, cuts_ok (gen c i) cuts -> solver_ok solve (with_cuts (gen c i) cuts)) /\
+    (forall cuts it, cuts_ok (gen c i) cuts -> solve it (with_cuts (gen c i) cuts) <> NotOptimal).
+Proof. exact CnRefSolverProofs.reported_premises_satisfiable. Qed.
+Goal True. idtac "ASSUME C03_reported_premises_satisfiable". Abort.
+Print Assumptions C03_reported_premises_satisfiable.
+
+Example C03_reported_example : hyps_ok C03.ex_inst = true /\ CnRefSolverProofs.closedb (gen Consts_here.here C03.ex_inst) = true.
+Proof. vm_compute. split; reflexivity. Qed.
